@@ -1389,9 +1389,17 @@ class C16(Property):
             'reason before login / idle / with searches, wishlist, potential-parent and search-reply connects (incl. '
             'their race children) pending, server down / '
             'up, waits around the reconnect delay, stop() at each point + 1 h of virtual time), derived from '
-            'VERIF_SEED; a case is non-trivial when a session was initialised AND (a loss other than by stop() '
-            'occurred OR work was pending at stop() OR a login variant other than accepted was used); distinct = '
-            'distinct canonical case')
+            'VERIF_SEED; round 3: stop() / requested disconnect / disconnect(TIMEOUT|UNKNOWN) / server EOF / server '
+            'reset at EVERY suspension point of login() — before the reply and in the drain of each awaited write of '
+            'the burst (gated sockets; full sweep over all positions x 6 events, both connect modes) — and the same '
+            'events k = 0..45 loop iterations after login() was called without any gate (natural asyncio schedules, '
+            'monitor only); losses during which a CLOSED / SessionDestroyed listener of the application stays '
+            'suspended while the watchdog ticks and reconnects, the application reconnects (connect_server + login), '
+            'commands and stop() are issued, then the listener returns; CLOSED listeners that reconnect and log in '
+            'inside the event, each close reason; '
+            'a case is non-trivial when a session was initialised AND (a loss other than by stop() '
+            'occurred OR work was pending at stop() OR a login variant other than accepted was used OR a login was '
+            'interrupted OR a listener was suspended); distinct = distinct canonical case')
     assumptions = [
         'asyncio / CPython semantics are exercised, not modelled; FakeNet stands in for TCP (close feeds EOF to both '
         'readers, reset makes reads and writes fail), SimLoop for time',
@@ -1403,12 +1411,26 @@ class C16(Property):
         'from the fake network',
         'at most one WishlistInterval per scenario (a second one kills the server reader: C02 finding, fix '
         'proposed there)',
+        'a gated drain that is released after the connection was closed cleanly returns normally (asyncio wakes '
+        'drain waiters with a result on connection_lost(None)) and raises after a reset; which frames of an '
+        'interrupted burst reach the server is not compared (the writes of the tracking tasks interleave with the '
+        "listeners'), nor is the name (WRITE_ERROR / READ_ERROR) under which a server reset at the last write "
+        'surfaces',
+        'tasks that belong to a call of the application still in progress (login() and the sends it awaits) and '
+        'library tasks suspended INSIDE a listener of the application are not counted against stop(); the latter '
+        'must be gone once the listener has returned',
+        'the application calls connect_server() only while the reconnect watchdog is not in its reconnect delay '
+        '(a manual reconnect during the delay is followed by a second connect: side observation, candidate patch '
+        'fixes/C16-watchdog-rechecks-after-delay.candidate.patch, outside the alphabet)',
     ]
     modelled = ('the SessionInitialized listeners of network, distributed, user, room, interest, shares managers (burst, '
                 'in listener order); client.start/login/execute/stop, _on_connection_state_changed, '
                 '_on_server_reconnected; Network.initialize / connect_listening_ports (error modes) / disconnect / '
                 '_cancel_all_tasks / watchdog job (0.5 s ticks, reconnect delay) / CLOSING+CLOSED listeners of all '
-                'managers; life of every library task by spawn site (inventory tied to an ast scan of create_task / '
+                'managers; login() interrupted at any of its suspension points by a write failure / a close from another '
+                'task / stop() / a server EOF (Op.loginBreak), losses with a suspended application listener and its '
+                'return (Op.lossHeld / Op.release), connect_server() by the application (Op.connect); '
+                'life of every library task by spawn site (inventory tied to an ast scan of create_task / '
                 'BackgroundTask / Timer sites, of client.services and of the cancel calls on the shutdown paths). '
                 'Exercised but not modelled: transfers (no transfer in the scenarios), peer connections other than a '
                 'pending potential-parent / search-reply connect to an unreachable peer (both connect modes), UPnP, tracking '
